@@ -5,10 +5,13 @@ import CV.Model.Quant
 Input floats are bit patterns.  Lean's `Float`/`Float32` are IEEE binary64/binary32 with the same
 `+ * /`, `Float.toUIntN` saturates like Rust's `as` (NaN ↦ 0, negative ↦ 0, too large ↦ MAX),
 `UInt64.toFloat32`/`toFloat` round to nearest even like `u64 as f32/f64` — checked bit-for-bit
-against the crate by the correspondence runs.  Nothing in this file is used in a theorem
-(`Float` is opaque to the kernel); it produces the integer sequences `h`, `k0`, `gl`, `gr`, the
+against the crate by the correspondence runs.  The general theorems do not depend on this file (they quantify over the integer sequences);
+it produces the integer sequences `h`, `k0`, `gl`, `gr`, the
 `hint`, that the integer layer `CV.Model.Quant` consumes, and evaluates the theorems' hypotheses
-on each concrete instance (certificate checking).
+on each concrete instance (certificate checking).  Lean 4.33's kernel does reduce closed
+`Float`/`Float32` terms, so on a concrete table the hypotheses can also be *proved* by `decide`
+(see `CV.Proofs.QuantFloatInstances`); what cannot be done is to reason about IEEE arithmetic
+for *all* inputs.
 -/
 namespace CV.Quant
 
@@ -140,10 +143,6 @@ def FastCtx.monoCert (c : FastCtx F) (B : Nat) : Bool :=
   c.hE o B 0 == 0 &&
   (List.range c.n).all (fun i => decide (c.hE o B i ≤ c.hE o B (i + 1))) &&
   (List.range (c.n + 1)).all (fun i => c.hE o B i == c.hL o B i)
-
-/-- certificate: did the clamp to `free` ever bind (the pre-repair bound hypothesis)? -/
-def FastCtx.boundCert (c : FastCtx F) (B : Nat) : Bool :=
-  (List.range (c.n + 1)).all (fun i => decide (c.hE o B i ≤ c.free))
 
 end generic
 
